@@ -9,6 +9,7 @@ from __future__ import annotations
 import json
 import sys
 
+import ser
 from ser import build_graph, exc_class, pop_num, pop_var, project, ser_expr, var
 
 
@@ -22,6 +23,8 @@ def main():
         recs = []
         for qi, (x, y) in enumerate(item["qs"]):
             for order in range(item.get("orders", 1)):
+                # odd scenarios: names V<perm(i)> (alphabetical order unrelated to the numbering)
+                ser.set_naming("permuted", len(groups) * 31 + qi) if order % 2 else ser.set_naming("V")
                 graph = build_graph(g, order)
                 before = json.dumps(project(graph), sort_keys=True)
                 so = {pop_var(k + 1): {var(i) for i in w} for k, (z, w) in enumerate(doms)}
@@ -45,10 +48,12 @@ def main():
                     out = {"k": "exc", "exc": exc_class(exc), "msg": str(exc)[:160]}
                 if out["k"] != "exc" and json.dumps(project(graph), sort_keys=True) != before:
                     out = {"k": "mutated", "was": out["k"]}
+                ser.set_naming("V")
                 recs.append({"id": f"{item['gid']}:{qi}:{order}", "k": "tr", "x": x, "y": y, "out": out})
         groups.append({"n": g["n"], "d": g["d"], "b": g["b"], "pops": [{"z": z, "w": w} for z, w in doms], "recs": recs,
                        "gid": item["gid"]})
     json.dump(groups, open(sys.argv[2], "w"))
 
 
-main()
+if __name__ == "__main__":
+    main()
